@@ -369,7 +369,9 @@ class MinMaxAggregator:
         body.extend(lits_without_vars)
         ret.append(rule.update(body=body))
         if rule.ast_type == ASTType.Rule:
-            self._store_aggregate_head(agg.atom.function, rule.head, rest_vars, max_var, new_name)
+            # the head only stands for the result of the aggregate if nothing else restricts it
+            if not analytics.bounds and not analytics.equal_variable_bound and not lits_without_vars:
+                self._store_aggregate_head(agg.atom.function, rule.head, rest_vars, max_var, new_name)
         else:
             self._store_aggregate_for_minimize(agg.atom.function, rest_vars, max_var, new_name)
         return ret
